@@ -61,6 +61,17 @@ pub fn after_call(
                         "install-discards-matching-log",
                         format!("local log already matched ({}, {}) and no snapshot was requested", i, t),
                     ));
+                } else if let (true, Some((ai, at))) = (pre_match, m.tmp_acked_beyond) {
+                    // requested or not: a log that matches the snapshot holds, after it, entries of
+                    // the same history; the ones this node has acknowledged are counted by the
+                    // leader and must survive the install
+                    why = Some((
+                        "install-discards-acknowledged-entries",
+                        format!(
+                            "local log matched ({}, {}) and the node had acknowledged (index {}, term {}) beyond it; the install discarded it",
+                            i, t, ai, at
+                        ),
+                    ));
                 }
                 // (b) state right after the restore
                 if why.is_none() {
@@ -130,6 +141,7 @@ pub fn after_call(
         }
     }
     m.tmp_pre_match = None;
+    m.tmp_acked_beyond = None;
 
     // ---------- (c) leader side: why a snapshot is sent
     if post.state == StateRole::Leader {
